@@ -42,7 +42,7 @@ func (C12) Gen(r *core.Rng, tier string, emit func(string)) {
 	}
 	methods := []string{"GET", "GET", "GET", "HEAD", "HEAD", "POST", "PUT", "DELETE", "OPTIONS"}
 	inms := []string{"none", "none", "exact", "star", "weak", "list", "other"}
-	exts := []string{"mvt", "png", "jpg", "webp", "avif", "pbf", "x"}
+	exts := []string{"mvt", "png", "jpg", "webp", "avif", "pbf", "x", "jpeg", "PNG", "mvt.gz", "geojson"}
 	for i := 0; i < n; i++ {
 		// archive: tiles at zooms minz..maxz
 		minz := r.Intn(3)
@@ -116,6 +116,15 @@ func (C12) Gen(r *core.Rng, tier string, emit func(string)) {
 			case 3: // some tile, random extension
 				z := minz + r.Intn(maxz-minz+1)
 				p = fmt.Sprintf("/%s/%d/%d/%d.%s", name, z, r.Intn(1<<uint(z)), r.Intn(1<<uint(z)), exts[r.Intn(len(exts))])
+				if r.Bool() {
+					// a STORED tile asked for under a common alias of its type's extension: still the wrong extension
+					e := ts.entries[r.Intn(len(ts.entries))]
+					ez, ex, ey := pmtiles.IDToZxy(e.TileID)
+					alias := map[string]string{"mvt": "pbf", "jpg": "jpeg", "png": "PNG", "webp": "WEBP", "avif": "avifs"}[trueExt]
+					if alias != "" {
+						p = fmt.Sprintf("/%s/%d/%d/%d.%s", name, ez, ex, ey, alias)
+					}
+				}
 			case 4: // zoom outside
 				z := maxz + 1 + r.Intn(3)
 				if r.Bool() && minz > 0 {
@@ -348,6 +357,13 @@ func (C12) Oracle(line, goOut string) string {
 			if want, ok := ra.tileAt(pmtiles.ZxyToID(uint8(z), uint32(x), uint32(y))); !ok || !bytes.Equal(want, body0) {
 				return fmt.Sprintf("request %s answered 200 with bytes that are not the stored bytes of tile %d/%d/%d", c.path, z, x, y)
 			}
+		}
+	}
+	// "extension not matching the tile type -> 400": a tile of a known archive of a known type is answered 2xx only
+	// under the one extension of that type
+	if ok, n, _, _, _, ext := pmtiles.VerifParseTilePath(c.path); ok && n == c.name && (w.Code == 200 || w.Code == 204) {
+		if canon := map[pmtiles.TileType]string{pmtiles.Mvt: "mvt", pmtiles.Png: "png", pmtiles.Jpeg: "jpg", pmtiles.Webp: "webp", pmtiles.Avif: "avif"}[c.h.TileType]; canon != "" && ext != canon {
+			return fmt.Sprintf("request %s for an archive of tile type %q was answered %d: the extension does not match the tile type, want 400", c.path, canon, w.Code)
 		}
 	}
 	if ok, n, _, _, _, _ := pmtiles.VerifParseTilePath(c.path); ok && n == c.name && w.Code == 200 {
